@@ -160,7 +160,9 @@ def generate(spec):
                 g.isoforms.append((g.gid + ".t3", list(range(n - 1))))
 
     flat = [g for cg in genes for g in cg]
-    multi = [g for g in flat if len(g.exons) >= 3]
+    # candidates for unannotated isoforms are taken round-robin over the chromosomes (novel models on several chromosomes)
+    multi = [g for _, _, g in sorted(((gi, ci, g) for ci, cg in enumerate(genes) for gi, g in enumerate(cg) if len(g.exons) >= 3),
+                                     key=lambda x: (x[0], x[1]))]
     # novel isoforms
     for g in multi[: s["novel"]]:
         n = len(g.exons)
@@ -236,7 +238,9 @@ def generate(spec):
     if s["pre_ids"] >= 2:
         for ci in range(n_chr):
             pos = layout[ci] + 200
-            for num in range(1, 7):
+            # the reserved numbers differ between chromosomes (a leak of one chromosome's reserved set into another's
+            # numbering must be visible)
+            for num in range(1 + 2 * ci, 7 + 2 * ci):
                 for suf in ("nic", "nnic"):
                     gcount += 1
                     pg = Gene("novel_gene_%s_%d" % (CHR_NAMES[ci], 100 + 2 * num + (suf == "nnic")), CHR_NAMES[ci],
@@ -559,7 +563,7 @@ def _gtf_lines(truth):
             if getattr(g, "fixed_ids", False):
                 pass
             elif s["pre_ids"] and g.gid.endswith(("2", "5")):
-                gid = "novel_gene_%s_%d" % (chrom, n + 1)
+                gid = "novel_gene_%s_%d" % (chrom, 300 + n)
             n += 1
             g.out_gid = gid
             if s["gtf_meta"]:
@@ -575,10 +579,10 @@ def _gtf_lines(truth):
                 elif s["pre_ids"] and k == 0:
                     # ids left by an earlier IsoQuant run: numbers from 7 (1..6 are used by the leftovers block when pre_ids >= 2)
                     j = len([t for t in used_tids if t.startswith("transcript") and (".%s." % chrom) in t])
-                    otid = "transcript%d.%s.%s" % (7 + j // 2, chrom, "nic" if j % 2 == 0 else "nnic")
+                    otid = "transcript%d.%s.%s" % (40 + j // 2, chrom, "nic" if j % 2 == 0 else "nnic")
                     while otid in used_tids:
                         j += 1
-                        otid = "transcript%d.%s.%s" % (7 + j // 2, chrom, "nic" if j % 2 == 0 else "nnic")
+                        otid = "transcript%d.%s.%s" % (40 + j // 2, chrom, "nic" if j % 2 == 0 else "nnic")
                 used_tids.add(otid)
                 first_on_chr = False
                 g.out_tids.append(otid)
